@@ -575,6 +575,23 @@ def check_c10(tier, seed):
         run_batch(out, f"random{dn}", dn, hs, extra_specs=("Trace_Phys",) if dn == "A" else (), keep=fid.lines)
     out.c10_fid = fid
     c10_counterfactual(out, tier)
+    # refusals of the recursive calls under non-canonical spellings: components that '..' cancels again must not be created
+    # (or removed) on the way to a refusal further along the path
+    sp = gens.sp
+    hs = []
+    for ver in (3, 4):
+        base = [{"op": "create_stream", "p": sp(["foo"]), "heavy": False}, {"op": "create_storage", "p": sp(["bar"]), "heavy": False},
+                {"op": "create_stream", "p": sp(["bar", "a"]), "heavy": True}]
+        for i, toks in enumerate([["k1", "..", "foo", "k2"], ["k1", "bad_colon", "..", "k2"], ["k1", "..", "bad_colon"], ["k1", "k2", "..", "..", "foo", "k3"],
+                                  ["bar", "k1", "..", "a", "k2"], ["k1", ".", "..", "..", "k2"], ["bar", "..", "k1", "..", "..", "k2"], ["k1", "..", "bar", "a"]]):
+            for lead, trail in ((True, False), (False, True)):
+                ops = [dict(o) for o in base] + [{"op": "create_storage_all", "p": sp(toks, lead, trail), "heavy": True},
+                                                 {"op": "exists", "p": sp(["k1"]), "heavy": False},
+                                                 {"op": "remove_storage_all", "p": sp(toks, lead, trail), "heavy": True},
+                                                 {"op": "create_storage", "p": sp(toks, lead, trail), "heavy": True},
+                                                 {"op": "create_stream", "p": sp(toks, lead, trail), "heavy": True}]
+                hs.append({"id": f"csa_v{ver}_{i}_{int(lead)}", "ver": ver, "heavy": "marked", "ops": ops})
+    run_batch(out, "recursive_spellings", "A", hs)
     # refused seeks on a handle holding unflushed data: bytes and position must not change
     from . import hgens
     rng = random.Random(seed + 33)
